@@ -40,7 +40,8 @@ NEWPIN_VALUES = {"valid": "a1b2c3a1", "short7": "Abcd123", "digits": "87654321",
 # an otherwise valid PIN with ASCII whitespace around / inside it (9 bytes): not policy-compliant
 WS_KINDS = ["trail-blank", "lead-blank", "trail-nl", "trail-tab", "inner-blank"]
 WS_QUICK = ["trail-blank", "lead-blank"]      # getpass answers, quick tier
-WS_QUICK_OPT = ["trail-blank"]                 # --pin / --newpin, quick tier
+WS_QUICK_OPT = ["trail-blank", "trail-nl"]     # --pin / --newpin, quick tier ("\n": what a regex $ forgives)
+ANYPIN_ONLY = ["short-nl", "only-nl"]          # short forms that matter only with --anypin
 
 
 def ws_variant(valid, kind):
@@ -55,6 +56,8 @@ GETPASS_MENU = [("valid", "Zz11gpZz"), ("short7", "gp1234Z"), ("digits", "112233
 for _k in WS_KINDS:
     PIN_VALUES[_k] = ws_variant(PIN_VALUES["valid"], _k)
     NEWPIN_VALUES[_k] = ws_variant(NEWPIN_VALUES["valid"], _k)
+PIN_VALUES.update({"short-nl": "abc\n", "only-nl": "\n"})
+NEWPIN_VALUES.update({"short-nl": "Ab1\n", "only-nl": "\n"})
 GETPASS_WS = [(k, ws_variant("Zz11gpZz", k)) for k in WS_KINDS]
 # "yes" without newline = the last line of an input that ends there; "\r\n" = a DOS line ending
 STDIN_MENU = ["yes\n", "YES\n", "no\n", "n\n", "maybe\n", "\n", "y\n", "yes"]
@@ -348,7 +351,7 @@ class C18(Check):
         self.stdin_menu = STDIN_MENU + (STDIN_EXTRA if self.thorough else [])
         ws = WS_KINDS if self.thorough else WS_QUICK
         self.getpass_menu = GETPASS_MENU + [e for e in GETPASS_WS if e[0] in ws]
-        self.pin_kinds = PIN_KINDS + (WS_KINDS if self.thorough else WS_QUICK_OPT)
+        self.pin_kinds = PIN_KINDS + (WS_KINDS if self.thorough else WS_QUICK_OPT) + ANYPIN_ONLY
         self.td = None
 
     def bounds(self):
@@ -366,10 +369,22 @@ class C18(Check):
     def cases(self):
         cs = []
 
-        def add(**kw):
-            kw["id"] = len(cs)
-            cs.append({"kind": "config", "cfg": kw})
         T = self.thorough
+
+        def add(**kw):
+            if not kw["anypin"] and (kw["pin"] in ANYPIN_ONLY or kw["newpin"] in ANYPIN_ONLY):
+                return
+            kw["id"] = len(cs)
+            kw["verbose"] = False
+            cs.append({"kind": "config", "cfg": kw})
+            # -v/--verbose builds the dongle objects with debug=True (SGX: also -s/-p host and
+            # port): crossed with the scenarios where the PIN comes from the command line
+            # (thorough: with every configuration but the sharded interactive onboarding)
+            if (kw["pin"] == "valid" and kw["newpin"] in ("absent", "valid")) or \
+                    (T and kw.get("first_getpass") is None):
+                kv = dict(kw, verbose=True)
+                kv["id"] = len(cs)
+                cs.append({"kind": "config", "cfg": kv})
         for plat in ("ledger", "sgx"):
             ne_all = (False, True) if plat == "ledger" else (False,)
             for pin in self.pin_kinds:
@@ -433,6 +448,8 @@ class C18(Check):
             a += ["-e"]
         if cfg["output"]:
             a += ["-o", td.file("out.txt")]
+        if cfg.get("verbose"):
+            a += ["-v"] + (["-s", "sgx.example", "-p", "4321"] if sgx else [])
         return a
 
     def execute(self, cfg, ctx):
@@ -556,6 +573,11 @@ class C18(Check):
             c = apdu[1]
             if not shape or shape[-1] != c:
                 shape.append(c)
+            if seedbuf and c not in (0x44, 0x41, 0x07):
+                # bootloader.c reset_if_starting: SEED / SEND_PIN / WIPE are one operation; any
+                # other instruction in between clears the host seed received so far
+                V("seed", "transfer-interrupted", {"by_instruction": "0x%02x" % c, "apdu_index": idx,
+                  "seed_bytes_sent": len(seedbuf)}, {"between_SEED_and_WIPE": "only SEED and SEND_PIN"})
             if c == 0x43:
                 facts["mode"] = resp[1] if ok and len(resp) == 2 else "?"
             elif c == 0x06:
